@@ -620,26 +620,34 @@ def run(res: C.Result, deep: bool):
 def search(res: C.Result):
     """rule 2: model and code disagree but no failing input yet: explore schedules around the diverging cases"""
     _init_extra(res)
-    seeds = [d["case"]["case"] for d in res.corr_diffs if d["case"]["kind"] in "SG"][:12]
+    # VERIF_SEARCH_SCALE (default 1): a mutation sweep that runs this search hundreds of times may shrink it; a verdict
+    # "no failing input found" obtained with a scale below 1 is to be confirmed with the full search
+    scale = float(os.environ.get("VERIF_SEARCH_SCALE") or 1.0)
+    res.extra["search_scale"] = scale
+    seeds = [d["case"]["case"] for d in res.corr_diffs if d["case"]["kind"] in "SG"][:max(2, int(12 * scale))]
     items: List[Tuple[str, str, Any]] = []
     n = 0
     rng = C.rng_for(res.seed, "C17search")
     for case in seeds:
         base = {"ds": case["ds"], "ops": case["ops"]}
+        if case.get("pre"):
+            base["pre"] = case["pre"]
         nr = min(r_steps(base), 8)
         for first in "RW":
-            for s in itertools.islice(block_schedules(nr, 3 + len(case["ds"]), 5, first), 6000):
+            for s in itertools.islice(block_schedules(nr, 3 + len(case["ds"]), 5, first), int(6000 * scale)):
                 items.append((f"s{n}", "S", dict(base, sched=s))); n += 1
     for dss, ops in SMALL_PROGRAMS:
         base = {"ds": dss, "ops": number_ops(ops)}
         for first in "RW":
-            for s in block_schedules(min(r_steps(base), 8), 3 + len(dss), 5, first):
+            scheds = block_schedules(min(r_steps(base), 8), 3 + len(dss), 5, first)
+            for s in (scheds if scale >= 1 else itertools.islice(scheds, int(12000 * scale))):
                 items.append((f"s{n}", "S", dict(base, sched=s))); n += 1
-    for _ in range(3000):
+    for _ in range(int(3000 * scale)):
         items.append((f"s{n}", "S", random_case(rng, long=rng.random() < 0.3))); n += 1
-    for case in fine_exhaustive(False, rng):
-        items.append((f"s{n}", "G", case)); n += 1
-    for _ in range(3000):
+    if scale >= 1:
+        for case in fine_exhaustive(False, rng):
+            items.append((f"s{n}", "G", case)); n += 1
+    for _ in range(int(3000 * scale)):
         items.append((f"s{n}", "G", fine_random(rng, long=rng.random() < 0.3))); n += 1
 
     _with_pool(lambda pool: _feed(res, items, pool, until_failure=True))
